@@ -1,6 +1,7 @@
 (* C16 -- Exit status and error accounting follow the documented contract.  Property theorems only. *)
 From Coq Require Import List NArith.
 From FP Require Import Model.Base Model.Collector Model.ErrFilter Model.System Proofs.C05_proofs Proofs.C16_proofs.
+From FP Require Import Model.Rdh Model.Alpide Model.Scanner Model.Views Model.System Model.SystemView Proofs.C16_reportless.
 From FP Require Gen.Facts.
 Import ListNotations.
 Open Scope N_scope.
@@ -57,6 +58,19 @@ Example C16_nonvacuous :
   exit_code (Some 55) Init_ok true = 55 /\ exit_code (Some 55) Init_ok false = 0 /\ exit_code (Some 55) Init_failed false = 1.
 Proof. repeat split; reflexivity. Qed.
 
+(* the modes that print no report -- the three views and filtered writing (Model/SystemView.v run_reportless: scanner, view of
+   every batch, collector): the exit status is N exactly when an error was counted or a fatal error is held at the end, 0 exactly
+   when neither; without -E it is 0; the only abort is the frame views' layer-7 site (recorded finding F6) *)
+Theorem C16_reportless_exit : forall ff c m input s sh e n, run_reportless ff c m input = R_done s sh e -> rc_exit c = Some n -> n <> 0 ->
+  (e = n <-> collected_trouble ff s) /\ (e = 0 <-> ~ collected_trouble ff s).
+Proof. exact rl_exit_iff. Qed.
+Theorem C16_reportless_exit_without_option : forall ff c m input s sh e, run_reportless ff c m input = R_done s sh e -> rc_exit c = None -> e = 0.
+Proof. exact rl_exit_without_option. Qed.
+Theorem C16_reportless_abort_only_for_layer_7 : forall ff c m input p, run_reportless ff c m input = R_panic p ->
+  (exists dv, m = RL_view_frames dv) /\ p = SITE_view_stave_from_feeid /\
+  exists q, In q (concat (so_batches (scan_impl (rc_scan c) input))) /\ 6 < layer_from_feeid (r_fee_id (c_rdh q)).
+Proof. exact rl_panic. Qed.
+
 Print Assumptions C16_exit_table.
 Print Assumptions C16_fatal_is_reported.
 Print Assumptions C16_total_counts_messages.
@@ -66,3 +80,6 @@ Print Assumptions C16_cap.
 Print Assumptions C16_filter_selection.
 Print Assumptions C16_unique_codes.
 Print Assumptions C16_code_match.
+Print Assumptions C16_reportless_exit.
+Print Assumptions C16_reportless_exit_without_option.
+Print Assumptions C16_reportless_abort_only_for_layer_7.
